@@ -29,12 +29,20 @@ fn gen_script(r: &mut Rng) -> (u16, u64, Vec<(u64, u64)>) {
         match r.below(6) {
             0 => {
                 // clock steps back: by milliseconds, seconds, minutes, or far (an NTP / manual reset)
-                let back = match r.below(5) {
-                    0 => 1 + r.below(50),
-                    1 => 50 + r.below(5_000),
-                    2 => 4_990 + r.below(20),
-                    3 => 5_000 + r.below(600_000),
-                    _ => 1 + r.below(1u64 << 36),
+                // While the clock is behind, the generator stays on its last millisecond and, when
+                // the 4096 sequence numbers of that millisecond are used up, spins until the clock
+                // has caught up (with a scripted clock: one reading per iteration). Large steps are
+                // therefore generated only in the shapes with short runs (at most 12 x 6 calls).
+                let back = if shape < 2 {
+                    1 + r.below(50)
+                } else {
+                    match r.below(5) {
+                        0 => 1 + r.below(50),
+                        1 => 50 + r.below(5_000),
+                        2 => 4_990 + r.below(20),
+                        3 => 5_000 + r.below(600_000),
+                        _ => 1 + r.below(1u64 << 36),
+                    }
                 };
                 t = t.saturating_sub(back).max(EPOCH + 1);
             }
@@ -97,7 +105,7 @@ fn restart_stream(a: &snel_harness::out::Args) {
                 readings.push(cur);
                 match r.below(4) {
                     0 => {}
-                    1 => cur = cur.saturating_sub(match r.below(3) { 0 => r.below(3), 1 => r.below(8_000), _ => r.below(1u64 << 30) }).max(EPOCH + 1),
+                    1 => cur = cur.saturating_sub(r.below(3)),
                     _ => cur += 1 + r.below(5),
                 }
             }
